@@ -69,9 +69,9 @@ func knownFlag(c *core.Ctx, id string) bool {
 func runC04(c *core.Ctx) {
 	const thm = "C04_* (props/C04.v); positions in the dumps of ops lex/pq/ps/pss"
 	c.ReplayKnown()
-	nDocs := 4000
+	nDocs := 30000
 	if !c.Quick {
-		nDocs = 80000
+		nDocs = 500000
 	}
 	fp1 := knownFlag(c, "F-P1")
 	type cs struct {
